@@ -5,6 +5,7 @@ import (
 	"math/rand"
 	"sort"
 	"sync"
+	satomic "sync/atomic"
 
 	vmcommon "github.com/ElrondNetwork/elrond-vm-common"
 	"github.com/ElrondNetwork/elrond-vm-common/atomic"
@@ -240,6 +241,104 @@ func BulkMaps(seed int64, g, n int) []map[string]interface{} {
 		}
 	}, seed+1)
 	out = append(out, bulkLine("cont", "final", c.Len(), "lasts", []interface{}{want}))
+	return out
+}
+
+// BulkSnapshots: aggregate reads (Len, Keys, Values) against a writer that keeps ONE token moving between two keys - it always
+// inserts the other key before it removes the current one - next to `static` keys that never change.  In every state of the
+// sequential map the token is under at least one of the two keys and the size is at least static+1, so a linearizable Len / Keys /
+// Values can never report less (an aggregate read assembled from several moments can).  Only the outcome is recorded.
+func BulkSnapshots(seed int64, g, n int) []map[string]interface{} {
+	const static = 48
+	if g < 2 {
+		g = 2
+	}
+	var out []map[string]interface{}
+	type tally struct{ reads, missing, short, minlen int }
+	run := func(obj string, insert func(k int), remove func(k int), length func() int, keys func() []int) {
+		for i := 0; i < static; i++ {
+			insert(1000 + i)
+		}
+		insert(1)
+		var stop int32
+		tl := make([]tally, g)
+		par(g, func(i int, r *rand.Rand) {
+			if i == 0 {
+				cur, other := 1, 2
+				for j := 0; j < 4*n; j++ {
+					insert(other)
+					remove(cur)
+					cur, other = other, cur
+				}
+				satomic.StoreInt32(&stop, 1)
+				return
+			}
+			t := tally{minlen: 1 << 30}
+			for satomic.LoadInt32(&stop) == 0 {
+				t.reads++
+				if l := length(); l < t.minlen {
+					t.minlen = l
+				}
+				ks := keys()
+				has := false
+				for _, k := range ks {
+					if k == 1 || k == 2 {
+						has = true
+					}
+				}
+				if !has {
+					t.missing++
+				}
+				if len(ks) < static+1 {
+					t.short++
+				}
+			}
+			tl[i] = t
+		}, seed)
+		tot := tally{minlen: 1 << 30}
+		for _, t := range tl[1:] {
+			tot.reads += t.reads
+			tot.missing += t.missing
+			tot.short += t.short
+			if t.reads > 0 && t.minlen < tot.minlen {
+				tot.minlen = t.minlen
+			}
+		}
+		if tot.reads == 0 {
+			tot.minlen = static + 1
+		}
+		out = append(out, bulkLine(obj, "static", static, "reads", tot.reads, "minlen", tot.minlen, "missing", tot.missing, "short", tot.short))
+	}
+	m := container.NewMutexMap()
+	useValues := seed%2 == 0 // Values() instead of Keys() on every other run (each value equals its key)
+	run("snap", func(k int) { m.Insert(k, k) }, func(k int) { m.Remove(k) }, func() int { return m.Len() }, func() []int {
+		var raw []interface{}
+		if useValues {
+			raw = m.Values()
+		} else {
+			raw = m.Keys()
+		}
+		ks := make([]int, 0, len(raw))
+		for _, x := range raw {
+			if v, ok := x.(int); ok {
+				ks = append(ks, v)
+			}
+		}
+		return ks
+	})
+	var c vmcommon.BuiltInFunctionContainer = builtInFunctions.NewBuiltInFunctionContainer()
+	name := func(k int) string { return fmt.Sprintf("f%d", k) }
+	run("snap", func(k int) { _ = c.Add(name(k), &StubFn{ID: k}) }, func(k int) { c.Remove(name(k)) }, func() int { return c.Len() }, func() []int {
+		raw := c.Keys()
+		ks := make([]int, 0, len(raw))
+		for x := range raw {
+			var v int
+			if _, err := fmt.Sscanf(x, "f%d", &v); err == nil {
+				ks = append(ks, v)
+			}
+		}
+		return ks
+	})
 	return out
 }
 
